@@ -26,8 +26,8 @@ Definition run_shooting (oc : ocp) (pq : point Q) :=
   let pt := point_of_Q pq in
   let single := match m_kind (o_method oc) with SS => true | _ => false end in
   let L := lists_of oc pt single in
-  let rows := if single then rows_ss oc pt else rows_ms oc pt in
-  (objective L (o_objective oc), map out_row rows, L_X L).
+  let rows := match transcribe_shooting oc pt single with Some r => r | None => [] end in
+  (objective L (o_objective oc), map out_row rows, L_X L, shooting_accepts oc).
 End Conv.
 
 Definition run_shooting_float := @run_shooting _ FloatOps.
